@@ -53,6 +53,9 @@ def check(repo, res, tier):
     l4a(repo, res, canon, logic)
     l4b(repo, res, canon, logic)
     l6(repo, res, canon)
+    from .c10 import check_shared_state
+    check_shared_state(repo, res, 'C05.L9', 'the pool of ready tasks (or another per-workflow structure) of one workflow is seen '
+                       'by the next: a foreign task is looked up in the wrong graph and the run ends with an exception')
     # L5: an observation can always reach FINISHED (else the telescope never goes idle)
     from . import c08
     from .common import borrow
